@@ -32,11 +32,10 @@ class Giant:
 
 
 # ------------------------------------------------------------------------------------------------ QCOW2
-def giant_qcow2(rng, dense, cb=16):
+def giant_qcow2(rng, dense, cb=16, size=64 << 40):
     from dissect.hypervisor.disk.qcow2 import QCow2
     cs = 1 << cb
     l2n = cs // 8
-    size = 64 << 40
     nc = size // cs
     nl1 = -(-nc // l2n)
     # allocate a handful of clusters far apart (dense: many more in the same tables and other tables)
@@ -619,6 +618,11 @@ def giant_qcow2_2m(rng, dense):
     return giant_qcow2(rng, dense, cb=21)
 
 
+def giant_qcow2_4k(rng, dense):
+    """4 KiB clusters: the L1 table of a 64 TiB image is 256 MiB (read at open, as Meta); the point is that it opens at all"""
+    return giant_qcow2(rng, dense, cb=12, size=8 << 40)
+
+
 def giant_hds_v1(rng, dense):
     return giant_hds(rng, dense, ver=1)
 
@@ -627,7 +631,7 @@ def giant_vhdx_4k(rng, dense):
     return giant_vhdx(rng, dense, sector=4096)
 
 
-BUILDERS = [giant_qcow2, giant_qcow2_2m, giant_vmdk_se, giant_vmdk_hosted, giant_vmdk_descriptor, giant_vmdk_stream, giant_vdi_parent, giant_vhdx_diff, giant_vhdx, giant_vhdx_4k, giant_vhd, giant_vdi, giant_hds, giant_hds_v1]
+BUILDERS = [giant_qcow2, giant_qcow2_2m, giant_qcow2_4k, giant_vmdk_se, giant_vmdk_hosted, giant_vmdk_descriptor, giant_vmdk_stream, giant_vdi_parent, giant_vhdx_diff, giant_vhdx, giant_vhdx_4k, giant_vhd, giant_vdi, giant_hds, giant_hds_v1]
 
 
 def measure(g):
